@@ -365,6 +365,9 @@ class IsoTpActiveDecoder(IsoTpStateMachine):
             payload = bytes(payload) + bytes([self._padding_value] *
                                              (self._padding_size - len(payload)))
 
-        msg = can.Message(arbitration_id=can_tx_id, data=payload, is_extended_id=False)
+        # identifiers which do not fit into 11 bits require the
+        # extended frame format
+        msg = can.Message(
+            arbitration_id=can_tx_id, data=payload, is_extended_id=can_tx_id > 0x7FF)
 
         self._can_bus.send(msg)
